@@ -79,6 +79,18 @@ impl GenerationCache {
         Ok(())
     }
 
+    /// Remove the cache record.
+    ///
+    /// Called before the first output file is written, so that a run which fails part-way
+    /// is never remembered as up to date by a record left over from an earlier run.
+    pub fn invalidate<P: AsRef<Path>>(output_dir: P) -> Result<(), CacheError> {
+        match fs::remove_file(Self::cache_path(output_dir)) {
+            Ok(()) => Ok(()),
+            Err(e) if e.kind() == std::io::ErrorKind::NotFound => Ok(()),
+            Err(e) => Err(CacheError::Io(e)),
+        }
+    }
+
     /// Check if generation is needed by comparing with previous cache
     pub fn needs_regeneration<P: AsRef<Path>>(
         output_dir: P,
